@@ -674,6 +674,9 @@ package storage
 //@   modifies cell(walLogs), rs.fs._nextLSN, all(leafCell.valueBytes), all(leafCell.valueSize), all(btreeNode.dirty), all(btreeNode.lastLSN), storeState, elems(walLogs)
 //@   ensures[L2; C02 C04] (forall c *leafCell :: c.valueBytes == old(c.valueBytes) && c.valueSize == old(c.valueSize)) ||
 //@              (cell.pg.dirty && cell.pg.lastLSN == old(rs.fs._nextLSN) && rs.fs._nextLSN == old(rs.fs._nextLSN) + 1)
+//@   ensures[L3; C02] len(walLogs) == old(len(walLogs)) || (len(walLogs) == old(len(walLogs)) + 1 &&
+//@              walLogs[len(walLogs)-1].LSN == old(rs.fs._nextLSN) && walLogs[len(walLogs)-1].pageID == cell.pg.fileOffset &&
+//@              walLogs[len(walLogs)-1].cellID == cell.key && walLogs[len(walLogs)-1].WALOp == OpUpdate)
 //@   ensures[err.frame; C14] result1 != nil ==> rs.fs._nextLSN == old(rs.fs._nextLSN) && len(walLogs) == old(len(walLogs)) &&
 //@              (forall c *leafCell :: c.valueBytes == old(c.valueBytes) && c.valueSize == old(c.valueSize)) &&
 //@              (forall n *btreeNode :: n.dirty == old(n.dirty) && n.lastLSN == old(n.lastLSN))
@@ -697,6 +700,9 @@ package storage
 //@   modifies cell(walLogs), cell(found), rs.fs._nextLSN, all(leafCell.valueBytes), all(leafCell.valueSize), all(btreeNode.dirty), all(btreeNode.lastLSN), storeState, elems(walLogs)
 //@   ensures[L2; C02 C04] (forall c *leafCell :: c.valueBytes == old(c.valueBytes) && c.valueSize == old(c.valueSize)) ||
 //@              (cell.pg.dirty && cell.pg.lastLSN == old(rs.fs._nextLSN) && rs.fs._nextLSN == old(rs.fs._nextLSN) + 1)
+//@   ensures[L3; C02] len(walLogs) == old(len(walLogs)) || (len(walLogs) == old(len(walLogs)) + 1 &&
+//@              walLogs[len(walLogs)-1].LSN == old(rs.fs._nextLSN) && walLogs[len(walLogs)-1].pageID == cell.pg.fileOffset &&
+//@              walLogs[len(walLogs)-1].cellID == cell.key && walLogs[len(walLogs)-1].WALOp == OpUpdate)
 //@   ensures[err.frame; C14] result1 != nil ==> rs.fs._nextLSN == old(rs.fs._nextLSN) && len(walLogs) == old(len(walLogs)) &&
 //@              (forall c *leafCell :: c.valueBytes == old(c.valueBytes) && c.valueSize == old(c.valueSize)) &&
 //@              (forall n *btreeNode :: n.dirty == old(n.dirty) && n.lastLSN == old(n.lastLSN))
